@@ -9,6 +9,7 @@ import (
 	"syscall"
 	"time"
 
+	"github.com/whawty/auth/sasl"
 	"github.com/whawty/auth/zzverif/simfs"
 	"github.com/whawty/auth/zzverif/simsignal"
 
@@ -240,10 +241,34 @@ func propC10(r *Run) {
 			w.startLDAP(a)
 			vias = []string{"agent", "agent", "sasl", "ldap", "basic", "api"}
 		}
-		profile := []int{0, 0, 1, 2}[r.Choose("workload-profile", 4)]
+		// peers that connect to the saslauthd socket, send part of a request and then just stay
+		// connected: they must not take anything away from anybody else, however many they are
+		var stalled []simnet.Conn
+		if len(vias) > 1 && r.Choose("stalled-sasl-peers", 5) == 0 {
+			full, _ := (&sasl.Request{Login: "slow-peer", Password: "irrelevant", Service: "svc", Realm: ""}).Marshal()
+			npeers := []int{3, 20, 70}[r.Choose("nstalled-peers", 3)]
+			for i := 0; i < npeers; i++ {
+				c, derr := simnet.Dial("unix", a.saslPath)
+				if derr != nil {
+					r.Fail("frontend/refuses-connection", "saslauthd socket refuses connection #%d: %v", i, derr)
+				}
+				c.Write(full[:1+i%(len(full)-1)]) //nolint
+				stalled = append(stalled, c)
+			}
+			r.Count("fault:stalled-sasl-peers")
+		}
+		defer func() {
+			for _, c := range stalled {
+				c.Close() //nolint
+			}
+		}()
+		profile := []int{0, 0, 1, 2, 3}[r.Choose("workload-profile", 5)]
 		nclients := 1 + r.Choose("nclients", 14)
 		if profile > 0 {
 			nclients = 8 + r.Choose("nclients-storm", 7)
+		}
+		if profile == 3 {
+			nclients = 3 + r.Choose("nclients-changes", 3) // a long series of successful changes (hooks are notified of each)
 		}
 		ncalls := 0
 		for i := 0; i < nclients; i++ {
@@ -251,8 +276,16 @@ func propC10(r *Run) {
 			if profile > 0 {
 				n += 2
 			}
+			if profile == 3 {
+				n = 12 + r.Choose("ncalls-changes", 8)
+			}
 			var plan []*Call
 			for k := 0; k < n; k++ {
+				if profile == 3 {
+					u := users[r.Choose("user", len(users))]
+					plan = append(plan, &Call{Agent: a.idx, Via: "agent", Kind: "update", User: u, PW: fmt.Sprintf("changed-%d-%d", i, k)})
+					continue
+				}
 				plan = append(plan, genCall(r, a.idx, users, model, vias, profile))
 			}
 			ncalls += n
